@@ -208,6 +208,11 @@ CATALOGUE = {
     "wide-int-literal-operand": ["wv = 1", "print typeof (wv + 2147483648)", "print wv + 2147483648", "print typeof (4294967296 * wv)", "print 4294967296 * wv"],
     "wide-int-literal-argument": ["wf = fn(q: bigint) -> bigint {", "\treturn q + B1", "}", "wv = 1", "print typeof wf(wv + 2147483648)", "print wf(wv + 2147483648)"],
     "wide-int-literal-compared": ["wv = 1", "print typeof (wv < 2147483648)", "print wv < 2147483648"],
+    "optional-class-eq-itself": ["oc1: C? = C(1)", "print typeof (oc1 == oc1)", "print oc1 == oc1"],
+    "optional-class-eq-other": ["oc1: C? = C(1)", "oc2: C? = C(1)", "print typeof (oc1 != oc2)", "print oc1 != oc2"],
+    "optional-class-eq-nil": ["oc1: C? = C(1)", "print typeof (oc1 == nil)", "print oc1 == nil"],
+    "optional-fn-eq": ["of1: (fn() -> int)? = give", "print typeof (of1 == of1)", "print of1 == of1"],
+    "optional-map-eq": ["om1: map[str, int]? = map[str, int]", "print typeof (om1 == om1)", "print om1 == om1"],
     "alias-negate": ["am: A = 4", "print typeof (-am)", "print -am"],
     "alias-negate-as-second-argument": ["am: A = 4", "ad2 = fn(p: int, q: int) -> int {", "\treturn p + q", "}", "print typeof ad2(1, -am)", "print ad2(1, -am)"],
     "alias-negate-float-in-list": ["type F float", "af: F = 1.5", "print typeof [0.5, -af]", "print [0.5, -af]"],
